@@ -2,6 +2,7 @@ package types
 
 import (
 	fmt "fmt"
+	"math"
 
 	paramtypes "github.com/cosmos/cosmos-sdk/x/params/types"
 )
@@ -59,6 +60,10 @@ func validateLiquidationBatchSize(i interface{}) error {
 
 	if v <= 0 {
 		return fmt.Errorf("batch size must be positive: %d", v)
+	}
+	// the sweep computes its window with signed integers
+	if v > math.MaxInt64 {
+		return fmt.Errorf("batch size too large: %d", v)
 	}
 
 	return nil
